@@ -276,3 +276,51 @@ def run_resilient(exe, lines, env=None, shards=None, timeout=3000, max_deaths=30
             outs.extend(o)
             deaths.extend(d)
     return outs, deaths
+
+
+# ------------------------------------------------------------------ files from the independent writer (tools/pq.py)
+
+PQ_TYPES = {"i32": ("INT32", 0), "i64": ("INT64", 0), "f32": ("FLOAT", 0), "f64": ("DOUBLE", 0),
+            "bool": ("BOOLEAN", 0), "ba": ("BYTE_ARRAY", 0)}
+PQ_CODEC = {0: "UNCOMPRESSED", 1: "SNAPPY", 2: "GZIP", 6: "ZSTD", 7: "LZ4_RAW"}
+
+
+def pq_bytes(fs, encoding="RLE_DICTIONARY", crc=True, empty_pages=(), rng=None):
+    """The same logical file written by tools/pq.py (independent writer): dictionary-encoded chunks, page CRCs,
+    optionally an empty data page inserted before page index i of every chunk (empty_pages = set of i).
+    Returns file bytes."""
+    import sys
+    from pathlib import Path
+    sys.path.insert(0, str(Path(__file__).resolve().parent.parent / "tools"))
+    import pq
+    kids = []
+    for c in fs.cols:
+        if c.typ.startswith("fl"):
+            pt, tl = "FIXED_LEN_BYTE_ARRAY", int(c.typ[2:])
+        else:
+            pt, tl = PQ_TYPES[c.typ]
+        kids.append(pq.SchemaNode(c.name, "OPTIONAL" if c.nullable else "REQUIRED", pt, tl))
+    root = pq.SchemaNode("schema", "REQUIRED", None, 0, kids)
+    rgs = []
+    for rg in fs.rgs:
+        cols = []
+        for ci, ch in enumerate(rg):
+            c = fs.cols[ci]
+            rows = [r for pg in ch for r in pg]
+            defs = [(0 if r is None else 1) for r in rows] if c.nullable else [0] * len(rows)
+            vals = [r for r in rows if r is not None]
+            enc = encoding
+            if c.typ == "bool" and encoding != "PLAIN":
+                enc = "PLAIN"           # booleans have no dictionary encoding
+            pages = []
+            for i, pg in enumerate(ch):
+                if i in empty_pages:
+                    pages.append(pq.PageSpec(0, enc, crc=crc))
+                pages.append(pq.PageSpec(len(pg), enc, crc=crc))
+            if len(ch) in empty_pages:
+                pages.append(pq.PageSpec(0, enc, crc=crc))
+            cols.append(pq.ColumnSpec(defs, [0] * len(rows), vals, pages, codec=PQ_CODEC[fs.codec],
+                                      dictionary="auto" if enc in ("RLE_DICTIONARY", "PLAIN_DICTIONARY") else None))
+        rgs.append(pq.RowGroupSpec(len([r for pg in rg[0] for r in pg]), cols))
+    spec = pq.FileSpec(root, rgs)
+    return pq.write_file(spec, rng or random.Random(1))
